@@ -200,6 +200,7 @@ func (p prim) decodeImpl(b *bin.Buffer) error {
 		if v != string(p.Raw) {
 			return fmt.Errorf("string mismatch: got len %d want %d", len(v), len(p.Raw))
 		}
+		c20Kept = append(c20Kept, c20KeptValue{s: v, want: p.Raw})
 	case "bytes":
 		v, err := b.Bytes()
 		if err != nil {
@@ -208,6 +209,7 @@ func (p prim) decodeImpl(b *bin.Buffer) error {
 		if !bytes.Equal(v, p.Raw) {
 			return fmt.Errorf("bytes mismatch: got len %d want %d", len(v), len(p.Raw))
 		}
+		c20Kept = append(c20Kept, c20KeptValue{b: v, isBytes: true, want: p.Raw})
 	case "vector":
 		v, err := b.VectorHeader()
 		if err != nil {
@@ -221,6 +223,17 @@ func (p prim) decodeImpl(b *bin.Buffer) error {
 }
 
 var c20Dirty []byte
+
+// c20Kept: the strings and byte slices decodeImpl handed out, kept as a caller
+// keeps them while the buffer they were decoded from is used for the next message.
+type c20KeptValue struct {
+	s       string
+	b       []byte
+	isBytes bool
+	want    []byte
+}
+
+var c20Kept []c20KeptValue
 
 func TestC20(t *testing.T) {
 	st := pbt.NewStats("TestC20")
@@ -274,7 +287,9 @@ func TestC20(t *testing.T) {
 			}
 		}
 		// decode the concatenation: every value comes back and consumes exactly its length
-		d := bin.Buffer{Buf: append([]byte(nil), b.Buf[len(prefix):]...)}
+		src := append([]byte(nil), b.Buf[len(prefix):]...)
+		d := bin.Buffer{Buf: src}
+		c20Kept = c20Kept[:0]
 		consumed := 0
 		var refBuf []byte
 		for _, v := range vals {
@@ -290,6 +305,16 @@ func TestC20(t *testing.T) {
 		}
 		if d.Len() != 0 {
 			t.Fatalf("%d bytes left after decoding all values", d.Len())
+		}
+		// the source buffer goes on to carry the next message; the decoded
+		// values are the caller's and stay what they were
+		for i := range src {
+			src[i] ^= 0x5A
+		}
+		for i, k := range c20Kept {
+			if (k.isBytes && !bytes.Equal(k.b, k.want)) || (!k.isBytes && k.s != string(k.want)) {
+				t.Fatalf("decoded value #%d (%d bytes, bytes=%v) changed when the buffer it was decoded from was overwritten", i, len(k.want), k.isBytes)
+			}
 		}
 		// truncation: any strict prefix of a single encoded value must give an error
 		v := vals[rapid.IntRange(0, n-1).Draw(t, "truncIdx")]
